@@ -815,11 +815,44 @@ func scanGlobalWrites(info *types.Info, files []*ast.File, report func(fname, wh
 				}
 				return true
 			})
+			// once-only initialisation: the function literal handed to Do of a
+			// package-level sync.Once runs once per process, before any reader of
+			// what it builds; a store in it whose value depends on nothing of the
+			// enclosing call is not a dependence on earlier calls
+			onceBodies := onceInitBodies(info, fd, isGlobal)
+			inOnce := func(pos token.Pos) *ast.FuncLit {
+				for _, fl := range onceBodies {
+					if fl.Pos() <= pos && pos < fl.End() {
+						return fl
+					}
+				}
+				return nil
+			}
+			dependsOnCall := func(e ast.Expr, fl *ast.FuncLit) bool {
+				dep := false
+				ast.Inspect(e, func(k ast.Node) bool {
+					if id, ok := k.(*ast.Ident); ok {
+						if v, ok := info.ObjectOf(id).(*types.Var); ok && v.Pkg() != nil && v.Parent() != v.Pkg().Scope() && !v.IsField() {
+							// a variable of the enclosing function (declared outside the literal)
+							if !(fl.Pos() <= v.Pos() && v.Pos() < fl.End()) {
+								dep = true
+							}
+						}
+					}
+					return !dep
+				})
+				return dep
+			}
 			ast.Inspect(fd.Body, func(n ast.Node) bool {
 				switch x := n.(type) {
 				case *ast.AssignStmt:
-					for _, l := range x.Lhs {
+					for li, l := range x.Lhs {
 						if g, isG := isGlobal(l); isG {
+							if fl := inOnce(x.Pos()); fl != nil && len(x.Lhs) == len(x.Rhs) && !dependsOnCall(x.Rhs[li], fl) {
+								if _, plain := ast.Unparen(l).(*ast.Ident); plain {
+									continue
+								}
+							}
 							report(fname, "writes package-level "+g, "a library function assigns to package-level state: repeated or concurrent calls are no longer functions of their input alone", x.Pos())
 						}
 						if ix, ok := ast.Unparen(l).(*ast.IndexExpr); ok {
@@ -857,7 +890,15 @@ func scanGlobalWrites(info *types.Info, files []*ast.File, report func(fname, wh
 												isPool = true
 											}
 										}
-										if ptrRecv && foreign && !readOnly[fn.Name()] && !isPool {
+										// (*sync.Once).Do with a literal that depends on nothing of
+										// this call: once-only initialisation
+										isOnceInit := false
+										for _, fl := range onceBodies {
+											if len(x.Args) == 1 && ast.Unparen(x.Args[0]) == ast.Expr(fl) {
+												isOnceInit = true
+											}
+										}
+										if ptrRecv && foreign && !readOnly[fn.Name()] && !isPool && !isOnceInit {
 											report(fname, "calls "+fn.Name()+" on package-level "+g, "a method with a pointer receiver on a package-level value of another package's type (a cache, a pool, a buffer): what this call returns, or a later one, depends on the calls that came before", x.Pos())
 										}
 									}
@@ -900,10 +941,10 @@ func positiveControlGlobalWrite(c *core.Ctx) {
 	}
 	hits := map[string]bool{}
 	scanGlobalWrites(info, []*ast.File{f}, func(fname, what, why string, pos token.Pos) { hits[fname] = true })
-	for _, want := range []string{"direct", "aliased", "deleted", "incremented", "cached"} {
+	for _, want := range []string{"direct", "aliased", "deleted", "incremented", "cached", "builtFromArg"} {
 		c.Check("R2", "positive control: "+want+" write to package-level state is recognised", "fixtures/globalwrite/fx.go", hits[want], "the rule no longer matches the shape it is meant to find")
 	}
-	c.Check("R2", "positive control: a read of package-level state is not reported", "fixtures/globalwrite/fx.go", !hits["readonly"] && !hits["looked"], "")
+	c.Check("R2", "positive control: a read of package-level state is not reported", "fixtures/globalwrite/fx.go", !hits["readonly"] && !hits["looked"] && !hits["builtOnce"], "")
 }
 
 // sortsParam is set by checkC14: does function fn sort its i-th parameter in
@@ -1120,10 +1161,26 @@ func scanSharedMutableGlobals(info *types.Info, tpkg *types.Package, decls map[*
 // shared value? (exported API = ReadFile, Format, Validate, Generate, …)
 func reachableFromEntry(info *types.Info, tpkg *types.Package, decls map[*types.Func]*ast.FuncDecl, target *types.Func) bool {
 	callers := map[*types.Func][]*types.Func{}
+	isG := func(e ast.Expr) (string, bool) {
+		if id, ok := ast.Unparen(e).(*ast.Ident); ok {
+			if v, ok := info.ObjectOf(id).(*types.Var); ok && v.Pkg() != nil && v.Parent() == v.Pkg().Scope() {
+				return v.Name(), true
+			}
+		}
+		return "", false
+	}
 	for fn, fd := range decls {
 		fn := fn
+		// what runs inside a once-only initialiser builds the shared value; it
+		// is not a use of it
+		once := onceInitBodies(info, fd, isG)
 		ast.Inspect(fd.Body, func(n ast.Node) bool {
 			if call, ok := n.(*ast.CallExpr); ok {
+				for _, fl := range once {
+					if fl.Pos() <= call.Pos() && call.Pos() < fl.End() {
+						return true
+					}
+				}
 				if cal := load.Callee(info, call); cal != nil && cal.Pkg() == tpkg {
 					callers[cal] = append(callers[cal], fn)
 				}
@@ -1636,4 +1693,36 @@ func sharedSlicesStayHome(c *core.Ctx, p *load.Prog) {
 	for _, not := range []string{"kindOf", "cloned", "measured"} {
 		c.Check("R2d", "positive control: "+not+" is not reported", "fixtures/sharedslice/fx.go", !hits[not], "")
 	}
+}
+
+// onceInitBodies: the function literals handed to Do of a package-level
+// sync.Once in fd.
+func onceInitBodies(info *types.Info, fd *ast.FuncDecl, isGlobal func(ast.Expr) (string, bool)) []*ast.FuncLit {
+	var out []*ast.FuncLit
+	ast.Inspect(fd.Body, func(n ast.Node) bool {
+		call, ok := n.(*ast.CallExpr)
+		if !ok || len(call.Args) != 1 {
+			return true
+		}
+		sel, ok := ast.Unparen(call.Fun).(*ast.SelectorExpr)
+		if !ok || sel.Sel.Name != "Do" {
+			return true
+		}
+		if _, isG := isGlobal(sel.X); !isG {
+			return true
+		}
+		t := info.TypeOf(sel.X)
+		if pt, isP := t.(*types.Pointer); isP {
+			t = pt.Elem()
+		}
+		nt, ok := t.(*types.Named)
+		if !ok || nt.Obj().Pkg() == nil || nt.Obj().Pkg().Path() != "sync" || nt.Obj().Name() != "Once" {
+			return true
+		}
+		if fl, ok := ast.Unparen(call.Args[0]).(*ast.FuncLit); ok {
+			out = append(out, fl)
+		}
+		return true
+	})
+	return out
 }
